@@ -505,8 +505,125 @@ def clear_probe(run, focus, nsteps=620):
         mhsm.stdlib_datetime = saved_clock
 
 
+def prestart_probe(run, focus):
+    """the spy of a chart that has not been started yet (oracle only): spy() is the list of the lines logged so far - nothing on a
+    fresh chart, the idle step's queue reflection after a next_rtc(), the markers of posts made before the start - and the first
+    start_at's log is appended to it"""
+    for host in (mhsm.HsmWithQueues,):
+        for script in (["read"], ["next_rtc", "read"], ["post", "read"], ["post", "scribble", "read", "start", "read"], ["next_rtc", "start", "read", "step", "read"]):
+            hsm = host()
+            c = charts.GenChart(2, {1: 0, 2: 1}, {1: {0: ("T", 2)}, 2: {0: ("H",)}}, {1: 2}, nsig=1)
+            log = []
+            fns = c.build(log, spied=True)
+            cj = {"prestart_probe": script}
+            lines = []
+            bad = None
+            try:
+                for op in script:
+                    if op == "next_rtc":
+                        hsm.next_rtc()
+                        lines += list(hsm.spy_rtc())
+                    elif op == "post":
+                        hsm.post_fifo(Event(signal="E0"))
+                    elif op == "scribble":
+                        hsm.scribble("NOTE")
+                    elif op == "start":
+                        hsm.start_at(fns[1])
+                        lines = None            # (what the start step adds is judged by the other streams)
+                    elif op == "step":
+                        hsm.next_rtc()
+                    else:
+                        got = hsm.spy()
+                        if not isinstance(got, list) and bad is None:
+                            bad = ("C19/full-spy-before-start", "after %s on a chart that %s: spy() returned %r instead of the list of logged lines"
+                                   % (script[:script.index(op)] or "nothing", "was just created" if "start" not in script[:script.index(op)] else "is started", got))
+                        elif lines is not None and [line_tok(x) for x in got if line_tok(x).startswith("rf.")] != [line_tok(x) for x in lines if line_tok(x).startswith("rf.")] and bad is None:
+                            bad = ("C19/full-spy-before-start", "after %s: spy() holds %s, the step logs so far %s" % (script[:script.index(op)], got, lines))
+            except Exception as ex:  # noqa
+                bad = ("C19/full-spy-before-start", "%s raised %s: %s" % (script, type(ex).__name__, ex))
+            run.count("spy() read before the first start_at")
+            run.traces_validated += 1
+            if bad and bad[0].startswith(focus):
+                run.violate(bad[0], bad[1], cj)
+            run.case(cj, nontrivial=True)
+
+
+def handler_clear_probe(run, focus, n=30):
+    """an entry / exit / init / event handler that calls chart.clear_spy() (or clear_trace()) in the middle of a step (oracle only):
+    the step still appends its one trace record iff it is a transition (start_at included), and the step's own log still lists
+    every handler invocation made after the clear"""
+    rng = run.rng
+    saved_clock = mhsm.stdlib_datetime
+    mhsm.stdlib_datetime = FakeClock("fine")
+    try:
+        for _ in range(n):
+            c = charts.gen_chart(rng, nmax=6, nsig=2)
+            sites = [(i, k) for i in range(1, c.n + 1) for k in ("en", "ex", "in", "u0", "u1")]
+            where = dict((site, rng.choice(["spy", "spy", "trace"])) for site in rng.sample(sites, rng.randint(1, 3)))
+            log = []
+
+            def effects(chart, i, kind, e):
+                w = where.get((i, kind))
+                if w == "spy":
+                    chart.clear_spy()
+                elif w == "trace":
+                    chart.clear_trace()
+                    cleared[0] = True
+            hsm = mhsm.HsmWithQueues()
+            fns = c.build(log, spied=True, effects=effects)
+            start = rng.randrange(1, c.n + 1)
+            cj = {"handler_clear_probe": True, "chart": c.to_json(), "start": start, "where": [[i, k, w] for (i, k), w in where.items()]}
+            script = [rng.randrange(2) for _ in range(rng.randint(2, 8))]
+            cj["script"] = script
+            bad = None
+            try:
+                cleared = [False]
+                del log[:]
+                hsm.start_at(fns[start])
+                recs = list(hsm.full.trace)
+                if not (recs and recs[-1].start_state == "top" and recs[-1].signal is None) and bad is None:
+                    bad = ("C20/start-record/handler-clears", "start_at(%d) with handlers that clear the %s while entering: the trace holds %s"
+                           % (start, "/".join(sorted(set(where.values()))), [rec_tok(t) for t in recs]))
+                for sg in script:
+                    before = len(hsm.full.trace)
+                    cleared[0] = False
+                    del log[:]
+                    st_before = hsm.state.fun.__name__
+                    hsm.post_fifo(Event(signal="E%d" % sg))
+                    hsm.next_rtc()
+                    is_tr = any(k in ("en", "ex", "in") for _, k in log)
+                    recs = list(hsm.full.trace)
+                    grew = (len(recs) - before) if not cleared[0] else len(recs)
+                    if is_tr and (not recs or recs[-1].end_state != hsm.state.fun.__name__ or sig_tok(recs[-1].signal or "") != "u%d" % sg) and bad is None:
+                        bad = ("C20/record-lost/handler-clears", "the step E%d (%s -> %s) ran handlers that call clear_spy / clear_trace: no trace record "
+                               "for it (last record: %s)" % (sg, st_before, hsm.state.fun.__name__, rec_tok(recs[-1]) if recs else None))
+                    if not is_tr and not cleared[0] and grew != 0 and bad is None:
+                        bad = ("C20/record-for-a-step-without-transition", "E%d in %s caused no transition but the trace grew by %d" % (sg, st_before, grew))
+                    toks = [line_tok(x) for x in hsm.spy_rtc()]
+                    calls = ["c.%d.%s" % (i, k) for i, k in log if k != "rf"]
+                    if [t for t in toks if t.startswith("c.")] != calls and len(toks) < 250 and bad is None:
+                        bad = ("C19/calls/handler-clears", "a handler of this step called clear_spy(): the step log lists %s, the handlers ran %s"
+                               % ([t for t in toks if t.startswith("c.")], calls))
+            except (mhsm.HsmTopologyException, Diverged):
+                pass
+            except Exception as ex:  # noqa
+                bad = ("%s/handler-clears-error" % focus, "%s: %s" % (type(ex).__name__, ex))
+            run.count("handlers that call clear_spy / clear_trace in the middle of a step")
+            run.traces_validated += 1
+            if bad and bad[0].startswith(focus):
+                run.violate(bad[0], bad[1], cj)
+            elif bad:
+                run.count("handler-clear probe: %s (belongs to %s)" % (bad[0], bad[0][:3]))
+            run.case(cj, nontrivial=True)
+    finally:
+        mhsm.stdlib_datetime = saved_clock
+
+
 def replay(case):
     cc = case.get("case", case)
+    if "handler_clear_probe" in cc or "prestart_probe" in cc:
+        print(cc)
+        return 0
     if "meta_signal_probe" in cc:
         class R2:
             traces_validated = 0
